@@ -59,7 +59,7 @@ func init() {
 
 const levelText = "Generated lists of metric families (counter with/without _total, gauge, untyped, summary, classic histogram with or without +Inf bucket, and – protobuf only – integer and float native histograms with and without classic buckets; label values with quotes, backslashes, newlines and multi-byte runes; UTF-8 metric and label names; ±Inf/NaN/denormal values; positive and negative millisecond timestamps; exemplars with and without timestamp on counters and buckets; help texts with escapes; units; created timestamps) are encoded with expfmt (text 0.0.4, OpenMetrics 1.0.0 with created lines, delimited protobuf; no name escaping) and parsed through textparse.New with the matching content type. Oracle per format: the multiset of parsed samples (name, label set with le/quantile compared numerically, value bits, timestamp, exemplars, start timestamp where the scrape loop reads it) equals the samples the family list denotes under that format's documented rules (suffixes _bucket/_sum/_count/_total, implicit +Inf bucket, what the format cannot carry); TYPE entries equal the family types, HELP/UNIT texts equal the encoded ones; native histograms equal the encoded spans/buckets layout-independently; option laws: EnableTypeAndUnitLabels only adds __type__/__unit__ labels, KeepClassicOnClassicAndNativeHistograms adds exactly the classic series, IgnoreNativeHistograms yields exactly the classic series. Cross-format: le/quantile label texts of the same sample are identical in all three parses. Totality: truncated, bit-flipped, spliced, line-shuffled and random payloads under random options give entries or an error - a panic in repository code, a hang or (race build) a checkptr report is a violation. Held on the observed payloads only."
 
-const levelNote = "Trusted: expfmt as the reference encoder (its documented peculiarities are part of the expectation: OpenMetrics counters without _total are exposed as unknown; float classic histograms and gauge histograms are not encoded and therefore not generated for the text formats). Sample order inside a family and the Series() byte strings are not judged. StartTimestamp is read only where the scrape loop reads it (protobuf; OpenMetrics with OpenMetricsSkipSTSeries). Empty label values are treated as absent on both sides. NHCB conversion is C36's subject and not exercised here. Known findings carry their own kinds (see FINDINGS.md)."
+const levelNote = "Trusted: expfmt as the reference encoder (its documented peculiarities are part of the expectation: OpenMetrics counters without _total are exposed as unknown; float classic histograms and gauge histograms are not encoded and therefore not generated for the text formats). Sample order inside a family and the Series() byte strings are not judged. StartTimestamp is read only where the scrape loop reads it (protobuf; OpenMetrics with OpenMetricsSkipSTSeries). Empty label values are treated as absent on both sides. NHCB conversion is C36's subject and not exercised here. The hang verdict is the only time-based one: a hostile parse that has not returned after 6 s (payloads < 64 KiB parse in well under a millisecond) and whose goroutine is found twice, one second apart, inside repository frames; otherwise the case is inconclusive; after a hang a worker skips further hostile parses of the same combination (counted). Six failure mechanisms are recorded as known findings with their own kinds and predicates (FINDINGS.md): om-starttimestamp-peek-spins-on-invalid-token, nhcb-panic-on-blank-label-name, om-exemplar-label-value-not-unescaped, om-timestamp-truncated-by-1ms, text-negative-timestamp-rejected, proto-mixed-native-classic-family; any other difference keeps a generic kind and fails the run."
 
 // ---------------------------------------------------------------- model
 
